@@ -34,10 +34,12 @@ def match_open(prop, failure):
     return None
 
 
-def open_cases(prop):
-    """witness-case tags of the open findings of a property: the native cross-check skips exactly these cases"""
+def open_cases(prop=None):
+    """witness-case tags of the open findings (of one property, or of all when prop is None): the native cross-check
+    and the witness search skip exactly these cases - a recorded finding is known whichever property's check runs the
+    generator that would rediscover it"""
     out = []
     for e in load():
-        if e.get('status') == 'open' and e.get('property') == prop:
+        if e.get('status') == 'open' and (prop is None or e.get('property') == prop):
             out.extend(e.get('witness_cases', []))
     return out
